@@ -359,6 +359,7 @@ const (
 	qInsert = "INSERT INTO t (a, b) VALUES (1, 'x')"
 	qInj    = "SELECT * FROM users WHERE id = 1 OR 1 = 1 -- x"
 	qLint   = "select a,b  from t \nWHERE a = 1   "
+	qLint2  = "SELECT x\n  , y  \nfrom u\n\n\nwhere  y = 2"
 	qShort  = "SELECT 1"
 	qCommA  = "-- head A\nSELECT a, -- first A\n b /* second A */ FROM t -- tail A\n"
 	qCommB  = "/* one B */ SELECT x -- two B\nFROM u /* three B */ WHERE y = 1 -- four B\n"
@@ -446,6 +447,12 @@ var Ops = []Op{
 		l := linter.New(whitespace.NewTrailingWhitespaceRule(), whitespace.NewRedundantWhitespaceRule(),
 			keywords.NewKeywordCaseRule(keywords.CaseUpper), style.NewCommaPlacementRule(style.CommaTrailing))
 		return lintText(l.LintString(qLint, "q.sql"))
+	}},
+	// a second text for the linter (other lines, other findings): whatever the linter keeps between calls is keyed by text
+	{Name: "lint-other", F: func() string {
+		l := linter.New(whitespace.NewTrailingWhitespaceRule(), whitespace.NewRedundantWhitespaceRule(),
+			keywords.NewKeywordCaseRule(keywords.CaseUpper), style.NewCommaPlacementRule(style.CommaTrailing))
+		return lintText(l.LintString(qLint2, "r.sql"))
 	}},
 	{Name: "validate-typo", F: func() string {
 		if err := gosqlx.Validate(qTypo); err != nil {
